@@ -44,6 +44,7 @@ func checkC10(tier, replay string) int {
 	type item struct {
 		typ  string
 		seed int64
+		g    *genCase // reproducer pair kept under /verif/fixed
 	}
 	var items []item
 	if replay != "" {
@@ -53,12 +54,17 @@ func checkC10(tier, replay string) int {
 		}
 		var g genCase
 		json.Unmarshal(data, &g)
-		items = []item{{g.Type, g.Seed}}
+		items = []item{{g.Type, g.Seed, nil}}
 	} else {
 		base := env.Seed*1000003 + 900000
 		for i := 0; i < n; i++ {
 			for _, t := range types {
-				items = append(items, item{t, base + int64(i)})
+				items = append(items, item{t, base + int64(i), nil})
+			}
+		}
+		for _, t := range []string{"asa", "ios", "nsx"} {
+			for _, g := range fixedPairs(env, t) {
+				items = append(items, item{t, -1, g})
 			}
 		}
 	}
@@ -68,7 +74,12 @@ func checkC10(tier, replay string) int {
 			c10Linux(env, rep, it.seed)
 			return
 		}
-		g := genPair(it.typ, it.seed)
+		g := it.g
+		if g == nil {
+			g = genPair(it.typ, it.seed)
+		} else {
+			rep.Count("fixed_pairs", 1)
+		}
 		o := runConv(env, g, true)
 		if o.Inconclusive != "" || !o.Nontrivial || o.Exec != nil || o.Conv != nil {
 			// Not a usable base run; such cases are judged by C01-C05 / C08.
